@@ -253,7 +253,7 @@ func (s *storeRun) putGuarded(ctx context.Context, c *certs.FinalityCertificate)
 	select {
 	case err := <-done:
 		return err, true
-	case <-time.After(5 * time.Second):
+	case <-time.After(30 * time.Second):
 		return nil, false
 	}
 }
@@ -318,7 +318,7 @@ func (s *storeRun) rangeOp(a, b uint64) {
 func runStore(o *out, r *rng, thorough bool, pid string) {
 	switch pid {
 	case "C09":
-		o.Rule = "histories of create/open/open-or-create/put{successor,duplicate,gap,stale,wrong delta,wrong cid,bottom,invalid chain,emptying delta}/get/range/power-table/latest/reopen with the check-point frequency lowered to 2..5 so that check-points are crossed densely, replayed on the real certstore (in-memory datastore) and on the Coq model; non-trivial = >=1 accepted put with a non-empty delta and >=1 rejected put or reopen; subscribers: Subscribe at any time (also on a non-empty store), readers that lag by any number of puts, close, re-open; every channel read compared with Store/Subscribers.v, a writer blocked longer than 5 s is a violation"
+		o.Rule = "histories of create/open/open-or-create/put{successor,duplicate,gap,stale,wrong delta,wrong cid,bottom,invalid chain,emptying delta}/get/range/power-table/latest/reopen with the check-point frequency lowered to 2..5 so that check-points are crossed densely, replayed on the real certstore (in-memory datastore) and on the Coq model; non-trivial = >=1 accepted put with a non-empty delta and >=1 rejected put or reopen; subscribers: Subscribe at any time (also on a non-empty store), readers that lag by any number of puts, close, re-open; every channel read compared with Store/Subscribers.v, a writer blocked longer than 30 s is a violation"
 	case "C10":
 		o.Rule = "for every mutating operation (create, put, wipe) of generated histories EVERY prefix of its datastore write sequence is cut (fault-injecting datastore), then the store is reopened with each open variant and its observables (latest, get, power tables) compared with the model; non-trivial = crash point strictly inside an operation"
 	case "C17":
@@ -557,7 +557,7 @@ func runStore(o *out, r *rng, thorough bool, pid string) {
 			latBefore := s.latestInst()
 			err, returned := s.putGuarded(ctx, put)
 			if !returned {
-				s.viol("subscribers never block writers", "store-writer-blocked-by-subscriber", fmt.Sprintf("Put of instance %d did not return within 5 s with %d subscriptions open", put.GPBFTInstance, len(s.subs)))
+				s.viol("subscribers never block writers", "store-writer-blocked-by-subscriber", fmt.Sprintf("Put of instance %d did not return within 30 s with %d subscriptions open", put.GPBFTInstance, len(s.subs)))
 				s.h = nil
 				break
 			}
